@@ -551,9 +551,13 @@ def register(name, source, imports, items):
 
 def generate(repo, out_dir, pin=False):
     # recipes of the other Gen modules live in sibling files and register themselves
+    import_errors = {}
     for mod in sorted(os.listdir(HERE)):
         if mod.startswith('gen_') and mod.endswith('.py'):
-            __import__(mod[:-3])
+            try:
+                __import__(mod[:-3])
+            except Exception as e:  # a broken recipe file must not block the other modules
+                import_errors[mod] = f'{type(e).__name__}: {e}'
     src = Src(repo)
     pinned = {}
     if os.path.exists(PINNED):
@@ -562,7 +566,21 @@ def generate(repo, out_dir, pin=False):
     report = {}
     new_pinned = {}
     os.makedirs(out_dir, exist_ok=True)
-    for mname, m in MODULES.items():
+    if import_errors:
+        report['_recipe_import_errors'] = import_errors
+    for mname, m in list(MODULES.items()):
+        try:
+            _gen_module(src, mname, m, pinned, new_pinned, out_dir, report)
+        except Exception as e:
+            report[mname] = {'_error': f'{type(e).__name__}: {e}'}
+    if pin:
+        with open(PINNED, 'w') as f:
+            json.dump(new_pinned, f, indent=1, sort_keys=True)
+    return report
+
+
+def _gen_module(src, mname, m, pinned, new_pinned, out_dir, report):
+    if True:
         rep = {}
         texts = []
         for iname, recipe in m['items']:
@@ -592,10 +610,6 @@ def generate(repo, out_dir, pin=False):
             with open(path, 'w') as f:
                 f.write(out)
         report[mname] = rep
-    if pin:
-        with open(PINNED, 'w') as f:
-            json.dump(new_pinned, f, indent=1, sort_keys=True)
-    return report
 
 
 if __name__ == '__main__':
